@@ -22,7 +22,7 @@ RULE = ("seeded clusters: 1-6 looms on 1-4 hosts with clock skews (up to 50 min 
 REAL = ["ovniemu, ovnidump -x, ovnitop (src/emu/**: player.c, heap.h, stream.c, trace.c, system.c, clkoff.c) built from /repo's working tree",
         "heap.h additionally inside aux/heap_harness.c"]
 STUB = ["libovni replaced by the independent trace writer sim/tracefmt.py", "directory enumeration order driven through creation order on tmpfs"]
-ASSUMPTIONS = ["corrected clocks stay positive (BASE 1e13 ns) -- streams whose corrected first clock is negative are outside the domain",
+ASSUMPTIONS = ["raw clocks are positive (BASE 1e13 ns); corrected clocks may be negative (5% of the tables shift every host by -2e13 ns)",
                "with equal corrected clocks across streams only the *set* of events per timestamp is compared (the statement leaves tie order open)",
                "ovnidump/ovnitop apply no offsets: what they print is first checked against raw clocks (loss-free, per-stream order, "
                "non-decreasing raw time) and then against corrected time, where the mismatch is the recorded finding O3 (KNOWN_FINDINGS)"]
@@ -180,6 +180,9 @@ def gen(rng, tier, idx):
             table_mode = "default"
         keep = 1
         tablefmt = 0
+    # 5%: the table moves every host by the same extra amount, far enough for all corrected clocks to be negative (times in
+    # the output are relative to the first event, so nothing else changes)
+    shift = 2 * BASE_CLOCK if (table_mode in ("default", "dash-c") and rc.chance(5)) else 0
     huge = []
     if idx % 400 == 203:
         # a stream of more than 4 GiB: two or three jumbo events of 2-4 GiB each (zero bytes, left as holes of a sparse file)
@@ -191,7 +194,7 @@ def gen(rng, tier, idx):
     rf = rng.derive("foreign")
     nforeign = rf.u64() if rf.chance(10) else 0
     return {"looms": looms, "skews": skews, "table": table_mode, "keep": keep, "mode": mode, "sched": sched, "orders": orders,
-            "tie": tie, "hostnames": hostnames, "foreign": nforeign, "tablefmt": tablefmt, "shapes": rc.chance(50), "huge": huge,
+            "tie": tie, "hostnames": hostnames, "foreign": nforeign, "tablefmt": tablefmt, "shapes": rc.chance(50), "huge": huge, "shift": shift,
             "linked": (rc.u64() if rc.chance(4) and not huge and idx % 500 != 321 else 0)}
 
 
@@ -272,7 +275,8 @@ def build(case):
             if h >= case["keep"]:
                 continue
             name = case.get("hostnames", ["h%d" % i for i in range(8)])[h]
-            lines.append("%-10d %-20s %-20d %-19.3f %.3f\n" % (n, name, -skews[h], float(-skews[h]), 1.5))
+            off = -skews[h] - case.get("shift", 0)
+            lines.append("%-10d %-20s %-20d %-19.3f %.3f\n" % (n, name, off, float(off), 1.5))
             n += 1
         if case.get("tablefmt"):
             # the same table in another layout the parser reads identically (fields are blank-separated, leading
